@@ -48,10 +48,16 @@ ConfigOk(c) == c.kind \in {"compressed", "interned"} /\ c.cpb >= 1 /\ c.thr >= 0
 (* batch b = [n (spends), plain (bytes of the uncompressed serialisation of what the batch appends    *)
 (* to the stream: 1 + SerLen(item) per spend), iso (sum of isolated vbytes + 3 per spend), spends,    *)
 (* sigs, truthful (execution + condition cost of the batch)]                                          *)
-\* NOTE byteCost starts at 0 in BOTH builders: the compressed builder only computes (size + 2) * cpb
-\* when an add reaches the serializer, so until then its cost() ignores the 5 bytes of the empty block.
-InitState(c) == [blockCost |-> QuoteCost, byteCost |-> 0, size |-> IF IsCompressed(c) THEN InitSerSize ELSE 0,
-                 skipped |-> 0, acc |-> <<>>, sigs |-> <<>>]
+\* NOTE byteCost starts at 0 in BOTH builders as written today: the compressed builder only computes
+\* (size + 2) * cpb when an add reaches the serializer, so until then its cost() ignores the 5 bytes of the
+\* empty block ("stale" start, see Stale and EstimateUpper below). A compressed builder that starts with the
+\* exact byte cost of the empty block is equally admitted (exactStart), so that repairing the estimate is not
+\* reported as a deviation.
+InitStateWith(c, exactStart) ==
+  [blockCost |-> QuoteCost, byteCost |-> IF IsCompressed(c) /\ exactStart THEN ByteCostOf(c, InitSerSize) ELSE 0,
+   size |-> IF IsCompressed(c) THEN InitSerSize ELSE 0, skipped |-> 0, acc |-> <<>>, sigs |-> <<>>]
+InitState(c)  == InitStateWith(c, FALSE)
+InitStates(c) == IF IsCompressed(c) THEN {InitStateWith(c, FALSE), InitStateWith(c, TRUE)} ELSE {InitState(c)}
 
 \* cost(): the running estimate
 Est(c, st) == st.byteCost + WrapCost(c) + st.blockCost
@@ -132,7 +138,7 @@ SetSt(s) == /\ accepted' = s.acc /\ blockCost' = s.blockCost /\ byteCost' = s.by
             /\ skipped' = s.skipped /\ sigBag' = s.sigs
 
 BInit(c) == /\ cfg = c /\ phase = "open" /\ last = [k |-> "new"]
-            /\ LET s == InitState(c) IN
+            /\ \E s \in InitStates(c) :
                /\ accepted = s.acc /\ blockCost = s.blockCost /\ byteCost = s.byteCost /\ size = s.size
                /\ skipped = s.skipped /\ sigBag = s.sigs
 
